@@ -66,7 +66,12 @@ func runWorker(prop Property, tier string, base uint64, from, to int, only map[i
 			continue
 		}
 		seed := RunSeed(base, prop.ID(), i)
-		c := prop.Gen(seed, tier)
+		var c *Case
+		if ix, ok := prop.(Indexed); ok {
+			c = ix.GenAt(i, seed, tier)
+		} else {
+			c = prop.Gen(seed, tier)
+		}
 		v, ri := prop.Check(c)
 		ws.Evaluations++
 		ws.Steps += ri.Steps
@@ -586,6 +591,9 @@ func main() {
 		idx, _ := strconv.Atoi(os.Args[4])
 		seed := RunSeed(baseSeed(), prop.ID(), idx)
 		c := prop.Gen(seed, os.Args[3])
+		if ix, ok := prop.(Indexed); ok {
+			c = ix.GenAt(idx, seed, os.Args[3])
+		}
 		v, ri := prop.Check(c)
 		b, _ := json.Marshal(freeze(c, ri))
 		fmt.Println(string(b))
